@@ -244,6 +244,7 @@ def m_table_with_capacity(ip, fr, c, t, args, st):
     if is_int(args[0]):
         st.num.add(ge(f["cap"][1], args[0][1]))
         f["#req"] = args[0]
+        ip.events.append(("table_alloc", {"state": st.fork(), "request": args[0][1], "chain": fr.chain, "loc": c.loc, "in": fr.body.path}))
     return [(("struct", RAWTABLE, f), st)]
 
 
@@ -289,6 +290,8 @@ def _find_like(ip, fr, c, t, args, st, wrap):
     kid = key_identity(ip, st, args[2]) if len(args) > 2 else None
     if kid is not None:
         st.store[("F", kid)] = e
+    ip.gadd(st, "found", e)
+    ip.gadd(st, "pending", e)
     return [(option("Some", wrap(("ptr", e, ()))), st), (option("None"), s_none)]
 
 
@@ -354,6 +357,9 @@ def m_table_remove_entry(ip, fr, c, t, args, st):
         known = None
     kent = st.store.get(known) if known is not None else None
     if kent is not None and kent[0] == "struct" and kent[2].get("#tid") == f.get("#tid") and is_int(kent[2].get(ip.r.E_SIZE)):
+        ip.gdel(st, "found", known)
+        ip.gdel(st, "unlinked", known)
+        ip.gdel(st, "pending", known)
         size = kent[2][ip.r.E_SIZE]
         k, v = kent[2].get(ip.r.E_KEY), kent[2].get(ip.r.E_VAL)
         st.num.add(le(size[1], f["G"][1]))
@@ -405,6 +411,8 @@ def _insert(ip, st, loc, entry, fr=None, c=None):
     ef["#tid"] = f.get("#tid")
     ef["#cur"] = None
     st.store[e] = ("struct", ip.r.entry, ef)
+    if f.get("#tid") in ip.cache_tids(st):
+        ip.gadd(st, "unlinked", e)      # in the cache's table but not yet in its list
     return mkstruct("hashbrown::raw::Bucket", {"ptr": ("ptr", e, ())})
 
 
@@ -526,6 +534,8 @@ def m_swap(ip, fr, c, t, args, st):
         vb = ip.load(st, *lb)
         ip.write(st, la[0], la[1], vb)
         ip.write(st, lb[0], lb[1], va)
+        installed = ip.cache_tids(st)
+        st.store[("G", "l2l")] = frozenset(x for x in ip.gset(st, "l2l") if x not in installed)
     return [(("unit",), st)]
 
 
@@ -797,15 +807,18 @@ def m_saturating_add(ip, fr, c, t, args, st):
 def m_max(ip, fr, c, t, args, st):
     a, b = args
     if is_int(a) and is_int(b):
-        s2 = st.fork()
-        st.num.add(ge(a[1], b[1]))
-        s2.num.add(lt(a[1], b[1]))
-        outs = []
-        if st.num.feasible():
-            outs.append((a, st))
-        if s2.num.feasible():
-            outs.append((b, s2))
-        return outs
+        if st.num.entails(ge(a[1], b[1])):
+            return [(a, st)]
+        if st.num.entails(ge(b[1], a[1])):
+            return [(b, st)]
+        # undetermined: r >= a, r >= b, and remember that r is max(a, b)  (no partition: the disjunction r in {a, b} is
+        # kept symbolically in the side table and used by the rules that need it)
+        r = ip.fresh_int(st, "max")
+        st.num.add(ge(r[1], a[1]))
+        st.num.add(ge(r[1], b[1]))
+        (sname, _), = r[1].t.items()
+        st.store[("M", sname)] = (a[1], b[1])
+        return [(r, st)]
     return [(ip.fresh_int(st, "max"), st)]
 
 
